@@ -227,7 +227,12 @@ def run(tier, seed, only=None):
         if only and ((not only.get("range") and only.get("batch") is not None) or tiny_only):
             continue
         framesV = [dict(fr, video=0) for fr in scene(random.Random(seed * 37 + ci), model == "single")]
-        framesV = framesV[2:] + framesV[:2]                  # an empty frame in the middle of a batch, not only first
+        if k == 0:
+            # animals per frame 1, 0, 2, 3: later batches hold MORE animals than any frame of the first one (what a model
+            # object remembers from its first batch must not cap the later ones; seeds C02_r13 / C12_r13)
+            framesV = [framesV[1], framesV[0], framesV[2], framesV[3]]
+        else:
+            framesV = framesV[2:] + framesV[:2]              # 2, 3, 0, 1: an empty frame in the middle of a batch, not only first
         srcV = ip.make_source(framesV, 3, EDGES)
         clV = Classes()
 
